@@ -101,6 +101,14 @@ CHECKS = {
          "converted objects, and are validated against the model by TLC.",
     note="default core charges are materialised before the first snapshot; for corpus objects the abstract kind is inferred from the first outcome",
     technique="TLA+ model (DumpFrame.tla) checked with TLC + trace validation of deep heap diffs around real dump calls"),
+ "C18": dict(
+    category="model_checking", design_ref="DESIGN.md section 6 C18",
+    text="TLC checks CliEqualsApi, NoFalseSuccess, FailureNamesProblem, PreflightSparesOutput and termination on every scenario "
+         "of the Cli model (load outcome x dump outcome x --many x pre-existing output x CLI-only failure); for ~170 (quick) / "
+         "~2000 (thorough) conversions each of the subprocess CLI, the in-process convert() and the API composition in a fresh "
+         "interpreter is executed and the triple (exit status, stderr, output state and byte hash) is validated by TLC.",
+    note="a CLI-only failure with non-zero status and message is allowed by the statement; subprocesses run with one BLAS thread",
+    technique="TLA+ model (Cli.tla) checked with TLC + TLC validation of differential CLI / convert() / API executions"),
 }
 NOT_YET = "check not built yet in this round (planned, see DESIGN.md section 6)"
 
